@@ -142,7 +142,7 @@ def run(ctx):
     derivs = ex1.printed_json('CASE')
     exh = ctx.tlc('RobustExport', cfg(1, 0, hang=True, export=True), workers=1, name='export-hang', count=False)
     hang = [c for c in exh.printed_json('CASE') if any('9**9**9' in t for t in c['toks'])]
-    sim = ctx.tlc('RobustExport', cfg(2, 2, export=True), workers=1, simulate='num=%d' % (1200 if quick else 150000),
+    sim = ctx.tlc('RobustExport', cfg(2, 2, export=True), workers=1, simulate='num=%d' % (1200 if quick else 20000),
                   depth=12, seed=ctx.seed + 5, name='simulate', count=True, timeout=3000)
     simc = {json.dumps(c['toks']): c for c in sim.printed_json('CASE')}
     gen = derivs + list(simc.values())
